@@ -3,6 +3,7 @@
 use std::collections::{HashSet, hash_set};
 use std::fmt;
 use std::path::{Path, PathBuf};
+use std::slice;
 use std::str::FromStr;
 
 use itertools::Itertools;
@@ -334,8 +335,9 @@ impl Default for EmitMode {
 /// A set of directories, files and modules that rustfmt should ignore.
 #[derive(Default, Clone, Debug, PartialEq)]
 pub struct IgnoreList {
-    /// A set of path specified in rustfmt.toml.
-    path_set: HashSet<PathBuf>,
+    /// The paths specified in rustfmt.toml, each once, in the order they are written there:
+    /// like in a gitignore file, a later pattern overrides an earlier one.
+    path_set: Vec<PathBuf>,
     /// A path to rustfmt.toml.
     rustfmt_toml_path: PathBuf,
 }
@@ -373,9 +375,9 @@ impl<'de> Deserialize<'de> for IgnoreList {
     where
         D: Deserializer<'de>,
     {
-        struct HashSetVisitor;
-        impl<'v> Visitor<'v> for HashSetVisitor {
-            type Value = HashSet<PathBuf>;
+        struct PathSeqVisitor;
+        impl<'v> Visitor<'v> for PathSeqVisitor {
+            type Value = Vec<PathBuf>;
 
             fn expecting(&self, formatter: &mut fmt::Formatter<'_>) -> fmt::Result {
                 formatter.write_str("a sequence of path")
@@ -385,15 +387,17 @@ impl<'de> Deserialize<'de> for IgnoreList {
             where
                 A: SeqAccess<'v>,
             {
-                let mut path_set = HashSet::new();
+                let mut path_set = Vec::new();
                 while let Some(elem) = seq.next_element()? {
-                    path_set.insert(elem);
+                    if !path_set.contains(&elem) {
+                        path_set.push(elem);
+                    }
                 }
                 Ok(path_set)
             }
         }
         Ok(IgnoreList {
-            path_set: deserializer.deserialize_seq(HashSetVisitor)?,
+            path_set: deserializer.deserialize_seq(PathSeqVisitor)?,
             rustfmt_toml_path: PathBuf::new(),
         })
     }
@@ -401,7 +405,7 @@ impl<'de> Deserialize<'de> for IgnoreList {
 
 impl<'a> IntoIterator for &'a IgnoreList {
     type Item = &'a PathBuf;
-    type IntoIter = hash_set::Iter<'a, PathBuf>;
+    type IntoIter = slice::Iter<'a, PathBuf>;
 
     fn into_iter(self) -> Self::IntoIter {
         self.path_set.iter()
